@@ -37,7 +37,10 @@ def generate(src):
 
     def h_get_graph(ex, st, e, recv, args, kw, k, K):
         g = fresh('graph'); st.pc.append(If(has_graph, Val.is_ref(g), g == Val.none)); return k(st, g)
+    validate_params = Bool('validate_params')
     def h_parse_params(ex, st, e, recv, args, kw, k, K):
+        oblige(st, "run_task/parse_params: with parameter validation disabled no signature is passed, so everything arrives as sent (parse_params contract)  [C08]",
+               Implies(Not(validate_params), to_val(args[0]) == Val.none) if args else BoolVal(False), replay=RP)
         ob(st, "run_task/parse_params: applied to this message before invocation  [C08]", And(len(args) == 3 and to_val(args[2]) == Val.ref(msg_a), G(st)['invokes'] == 0))
         ok = st.fork(); k(ok, None)
         f = st.fork(); setG(f, parse_failed=BoolVal(True)); K['exc'](f, raise_any(f, 'Exception'))
@@ -183,7 +186,8 @@ def generate(src):
             if p == 'message.kwargs': return k(st, PyDict(mkw_a))
             if p == 'message.labels': return k(st, PyDict(mlabels_a))
             if p == 'self.propagate_exceptions': return k(st, PyBool(propagate))
-            if p in ('self.known_tasks', 'self.validate_params', 'message.task_name', 'message.task_id', 'self.broker.state', 'self.broker.dependency_overrides', 'self.executor',
+            if p == 'self.validate_params': return k(st, PyBool(validate_params))
+            if p in ('self.known_tasks', 'message.task_name', 'message.task_id', 'self.broker.state', 'self.broker.dependency_overrides', 'self.executor',
                      'found_exception.__traceback__', 'self.broker.middlewares', 'self.task_signatures', 'self.task_hints', 'self.dependency_graphs'): return k(st, fresh(p.replace('.', '_')))
             if p.startswith('self.sem') or 'queue' in p:
                 ob(st, "run_task/frame: no access to the receiver's semaphores or hand-over queue  [C03]", BoolVal(False)); return k(st, fresh('forbidden'))
